@@ -56,7 +56,7 @@ def main():
             d = f"{wt}/pyscratch_{tag}"
             os.makedirs(d, exist_ok=True)
             shutil.copy(f"{wt}/target/debug/libivp.so", f"{d}/ivp.abi3.so")
-            rc, out = sh(f"/opt/veriftools/pyvenv/bin/python {demo} {d} 2>&1", cwd=wt)
+            rc, out = sh(f"/opt/veriftools/pyvenv/bin/python {demo} {d} 2>&1", cwd=wt, env={"IVP_SO_DIR": d})
             return rc, "\n".join(out.splitlines()[-8:]) + ("\nFAIL(exit %d)" % rc if rc != 0 else "\nPASS(exit 0)")
         if is_py:
             rc, out = pydemo("clean")
